@@ -240,11 +240,6 @@ class C09(SessimProp):
         return out
 
     # ---- root-cause attribution of a panic by counterfactual replay -------
-    C07_KNOWN_SITES = ("lang:dict-key-type", "lang:for-nonlist", "lang:match-nonenum", "lang:match-nonexhaustive",
-                       "lang:struct-field-type", "lang:struct-missing-field")
-    C07_KNOWN_TEXT = ("Dict[1 => 2]", "for zv in 3 { zv }", "match 3 { Av => 1 Bv(q) => q }", "match Bv(2) { Av => 1 }",
-                      "Sv{ x: \"s\", y: \"a\" }", "Sv{ x: 1 }")
-
     def panic_key(self, ex, steps):
         res = ex.run(self.scenario(steps))
         v = self.judge(steps, res)
@@ -268,9 +263,6 @@ class C09(SessimProp):
         Decided by counterfactual replay: the history is re-run with one
         ingredient removed; the first ingredient without which the same panic
         no longer happens names the family."""
-        def is_known_site(st):
-            return st["op"] == "send" and any(t in st["raw"].replace("\\\"", "\"") for t in self.C07_KNOWN_TEXT)
-
         def is_test(st):
             if st["op"] != "send":
                 return False
@@ -286,8 +278,6 @@ class C09(SessimProp):
         table = [
             ("panic-after-skip-or-replace", lambda st: self.describe(st) in (":skip", ":replace"),
              "does not happen with the :skip/:replace requests removed"),
-            ("panic-after-c07-known-site", is_known_site,
-             "does not happen with the C07-known error sites removed"),
             ("panic-running-test-while-stopped", is_test,
              "does not happen with the test definitions / :test requests removed"),
         ]
